@@ -39,6 +39,9 @@ class TvmBitarray(bitarray):
             raise TvmBitarrayUnderflowException('bitstring underflow')
 
     def extend(self, x: Union[str, Iterable[int]]) -> None:
+        if isinstance(x, str) or not hasattr(x, '__len__'):
+            # text may hold separators (white space, '_') that are not bits, and an iterator has no len()
+            x = bitarray(x)
         self.check_overflow(len(x))
         super().extend(x)
 
@@ -47,7 +50,7 @@ class TvmBitarray(bitarray):
         super().append(value)
 
     def frombytes(self, a: BytesLike) -> None:
-        self.check_overflow(len(a) * 8)
+        self.check_overflow(memoryview(a).nbytes * 8)  # len() counts items, which may be wider than a byte
         super().frombytes(a)
 
     def copy(self) -> "TvmBitarray":
